@@ -71,6 +71,7 @@ std::vector<std::pair<int, int>> g_kills;
 struct Fault { int tick; int at_open; std::string op; std::string path; Json::Value node; bool done{false}; };
 std::vector<Fault> g_faults;
 int g_tick = -1;
+Json::Value g_proc_ticks;
 int g_ticks_total = 0;
 std::vector<int> g_opens_per_tick;
 Json::Value g_tree;
@@ -273,6 +274,14 @@ int sigtimedwait(const sigset_t*, siginfo_t*, const struct timespec* ts) {
   vh::advanceNs((ts ? ts->tv_sec : 5) * 1000000000LL);
   for (auto& f : g_faults)
     if (!f.done && f.tick == g_tick && f.at_open < 0 && f.op != "vanish_on_readdir") applyFault(f);
+  // /proc files that change from tick to tick ("proc_ticks": [{file: content | null}, ...])
+  if (g_proc_ticks.isArray() && g_tick < (int)g_proc_ticks.size()) {
+    const Json::Value& pt = g_proc_ticks[g_tick];
+    for (auto it = pt.begin(); it != pt.end(); ++it) {
+      std::string f = g_procdir + "/" + it.key().asString();
+      if (it->isNull()) ::unlink(f.c_str()); else vh::writeFile(f, it->asString());
+    }
+  }
   errno = EAGAIN;
   return -1;
 }
@@ -417,6 +426,7 @@ void doTick(const Json::Value& sc, Json::Value& out) {
   for (auto it = pr.begin(); it != pr.end(); ++it)
     if (!it->isNull()) vh::writeFile(g_procdir + "/" + it.key().asString(), it->asString());
   vh::writeFile(g_procdir + "/kmsg", "");
+  g_proc_ticks = sc["proc_ticks"];
   g_faults.clear();
   for (const auto& f : sc["faults"])
     g_faults.push_back(Fault{f["tick"].asInt(), f.get("at_open", -1).asInt(), f["op"].asString(), f["path"].asString(), Json::Value()});
